@@ -14,6 +14,11 @@ CLI_NOTE = ("CLI correspondence: seeded command histories on real temporary proj
 POOL_NOTE = ("The theorems are about the labelled transition system GwfModel/Pool.lean (labels = the events observable on the real Scheduler). "
              "That asyncio realises only enabled transitions is VALIDATED by trace acceptance on the explored schedules (virtual clock, fake subprocess, instrumented semaphore/state table; fine-grained settling so cancels hit every await point), not proved. ")
 CHECKS = {
+ "C19": dict(
+   text="Theorems for ALL strings: a name is accepted iff non-empty, first char letter/underscore, rest letters/digits/underscore/dot (validName_iff; the regex literal and re.fullmatch are regenerated from the source — nameRegex_spec); a trailing newline is always rejected; a path is accepted iff non-empty and free of C0/C1 control characters (validPath_iff); a template/map target's working directory is the template's if given and non-empty, else the workflow's (targetWd_cases); with an absolute working directory the normalised path does not depend on the invoking directory (paths_cwd_independent); a batch of names is accepted iff pairwise distinct and new (addAll_ok_iff — covers collisions inside one map call); <base>_<i> naming is injective in i (map_names_distinct, from Nat.repr injectivity); the upward search for the workflow file returns the project root from the root and from every nested directory without its own workflow file (find_from_subdir).",
+   note="unicodedata's Cc category is modelled as the two control blocks; PathLike handling (fspath) and the frame-inspection that determines Workflow().working_dir are exercised by the correspondence only. The project is loaded in-process from three directories and through the CLI; symlinked project directories are not generated.",
+   technique="Lean 4 proof (list/string induction, Std Nat.repr_inj) + differential correspondence on generated names/paths and multi-directory loading",
+   design="§6-C19"),
  "C20": dict(
    text="Theorems for ALL key/value strings and configurations: get after set returns the coerced value, also after dump;load (set_get); other keys are never disturbed by set or unset; unset makes the key read as its default; unset of an absent or default-only key is the identity (unset_absent_noop); coercion is total and is exactly: Python-int syntax → int, true/yes → True, false/no → False, else the text itself (tryConv_cases, with the converter order regenerated from CONVERTERS); get_namespace returns exactly the items whose key is ns + '.' + k' — no prefix-sharing key leaks (namespace_exact, via dropPrefix?_iff); precedence flag > config > default (precedence).",
    note="Python int() is modelled on ASCII (ws, sign, digits with single underscores); Unicode digits/whitespace are not generated. JSON round trip of int/bool/str dicts is assumed (dump;load = identity in the model) and exercised through the real file in the correspondence. Backend/verbosity/colour precedence and the reach of backend.slurm.* / backend.local.* are observed through the real CLI (which fake scheduler is called, debug/info lines, click's tty switch, sbatch scripts, sacct calls, the connect call).",
